@@ -347,6 +347,40 @@ known("KF-C15-07", "C15", FS, "decode-embedded", r"(verdict|fields-set-differ)",
 known("KF-C15-08", "C15", "member-names", "Marshal", r"members-differ", r"embedded:(EmbL3|EmbShadow|EmbL3Ptr)",
       'Marshal(EmbL3{}) omits L3, L2, L1', "see KF-C15-06 / KF-C01-EMB", "other member-set differences on these types", "see KF-C01-EMB")
 
+# ------------------------------------------------------------------ C09
+SB = "stream-vs-buffer"
+for n, rx, same in (("01", "stream:nul-skipped", "KF-C05-05"), ("02", "stream:literal-prefix-at-EOF", "KF-C05-06"), ("03", "stream:literal-letters-unchecked", "KF-C05-07"),
+                    ("04", "stream:hex-unchecked", "KF-C05-08"), ("05", "stream:leading-comma-or-colon-skipped", "KF-C05-09"), ("06", "stream:skip-ignores-junk-before-value", "KF-C05-10"),
+                    ("07", "stream:trailing-after-top", "KF-C05-11"), ("08", "skip:unvalidated", "KF-C05-04"), ("09", "nul-terminates", "KF-C05-03"),
+                    ("10", "num:parsefloat-grammar", "KF-C05-01"), ("11", "str:raw-ctl", "KF-C05-02")):
+    known("KF-C09-R" + n, "C09", SB, None, r"verdict:stream-ok-buffer-err", r"relax=" + re.escape(rx),
+          "Decoder accepts an invalid text that Unmarshal rejects; the acceptance is explained by the stream lenience '%s' (%s)" % (rx, same), "see " + same, "see " + same, "see " + same)
+known("KF-C09-01", "C09", SB, r"u?int(8|16|32|64|ptr)?", r"verdict:stream-ok-buffer-err", r"valid-doc:[a-z-]+:buffer-error=invalid character after top-level value:u?int(8|16|32|64|ptr)?:number",
+      'NewDecoder("16.0").Decode(&uint8) = nil, 16 (Unmarshal: error)', "see KF-C16-03", "see KF-C16-03", "see KF-C16-03")
+known("KF-C09-02", "C09", SB, None, r"(verdict:stream-err-buffer-ok|value-differs:.+)", r"valid-doc:[a-z-]+:[a-z/-]+:doc-has-u-escapes(:.*)?",
+      '{"name":"","\\u0047\\u0067":[32768]} fed in 2-byte pieces decodes Gg as [0] or fails with "invalid character u as escaped char"', "internal/decoder/struct.go decodeKeyByBitmap*Stream / decodeKeyCharByUnicodeRuneStream: state is lost when the buffer is refilled inside an escaped object key",
+      "any other stream/buffer disagreement on valid documents that contain \\u escapes", "stream key scanner needs restartable escape decoding")
+known("KF-C09-03", "C09", "stream-seq", "InputOffset", r"offset-differs", r"(string|object|array):escapes=true",
+      'after decoding "helloAb\\f" from a stream InputOffset is 10, not 11', "internal/decoder/string.go: escapes are resolved in place in the stream buffer and the removed bytes are not added to the offset",
+      "other offset differences after documents containing escapes", "offset bookkeeping of in-place unescaping")
+
+known("KF-C09-04", "C09", SB, None, r"value-differs-on-invalid-doc", r"embedded-nul: buffer terminates, stream skips",
+      '"96.201e1\\x008" is 962.01 for Unmarshal and 96201000000000000000 for Decoder', "see KF-C05-03 and KF-C05-05: the two modes treat an embedded NUL differently", "other value differences on texts with an embedded NUL", "sentinel design")
+
+for n, rx, same in (("01", "nul-terminates", "KF-C05-03"), ("02", "num:parsefloat-grammar", "KF-C05-01"), ("03", "str:raw-ctl", "KF-C05-02"), ("04", "skip:unvalidated", "KF-C05-04")):
+    known("KF-C09-B" + n, "C09", SB, None, r"verdict:stream-err-buffer-ok-on-invalid-doc", r"relax=" + re.escape(rx),
+          "Unmarshal accepts an invalid text (lenience '%s', %s) that Decoder rejects" % (rx, same), "see " + same, "see " + same, "see " + same)
+known("KF-C09-05", "C09", SB, None, r"value-differs:.+", r"valid-doc:[a-z-]+:[a-z/-]+(:doc-has-u-escapes)?:doc-not-utf8",
+      'a key containing the byte 0xff is stored as U+FFFD by Decoder and raw by Unmarshal', "internal/decoder/string.go: only the stream string scanner replaces invalid UTF-8", "other value differences on documents that are not valid UTF-8", "the two scanners differ by design here")
+known("KF-C09-06", "C09", SB, None, r"verdict:stream-ok-buffer-err", r"valid-doc:[a-z-]+:buffer-error=.*:doc-has-u-escapes",
+      'a struct member spelled with an escaped key and a wrong-kind value is silently skipped by Decoder where Unmarshal reports the type error', "see KF-C09-02 (escaped keys in stream mode)", "see KF-C09-02", "see KF-C09-02")
+known("KF-C09-07", "C09", SB, r"(struct|arrayN|slice|ptr\d>.*|map\[.*)", r"verdict:stream-err-buffer-ok", r"valid-doc:(single-cut|pair-of-cuts|fixed):[a-z/-]+:expected comma after object element",
+      'a number that is the value of an unknown struct member and ends exactly at a refill boundary makes Decoder fail with "expected comma after object element"', "internal/decoder/stream.go skipValue number branch: after a refill the byte following the number is stepped over",
+      "other stream-only errors with this message on typed destinations", "stream skip scanner")
+
+known("KF-C09-R12", "C09", SB, None, r"verdict:stream-ok-buffer-err", r"relax=stream:nul-skipped-unmodelled",
+      'Decoder accepts "{\\n\\x00a.b\\":{}}" (NUL where the opening quote of a key should be)', "see KF-C05-05: NUL bytes are stepped over by several stream scanners in ways the recogniser's relaxation does not reproduce exactly", "other stream-only acceptances of texts with an embedded NUL", "sentinel design")
+
 json.dump({"comment": "generated by tools/gen_known.py; never written at check time", "findings": F},
           open(os.path.join(os.path.dirname(os.path.abspath(__file__)), "..", "known_findings.json"), "w"), indent=1, ensure_ascii=False)
 print(len(F), "entries")
